@@ -100,6 +100,65 @@ Proof.
   rewrite !kv_batch_app, get_batch_dels, get_batch_sets by exact Hu. rewrite get_batch_sets by exact Ha. reflexivity.
 Qed.
 
+(* ------------------------------------------------------------ PurgeQueue on the pending maps, pointwise *)
+Lemma get_filter_kv {V} : forall (f : key * V -> bool) (m : kv V) k, ksorted m ->
+  kv_get (filter f m) k = match kv_get m k with Some v => if f (k, v) then Some v else None | None => None end.
+Proof.
+  induction m as [|[k0 v0] t IH]; intros k Hs; [reflexivity|]. apply ksorted_inv in Hs as [Ht Hf].
+  cbn [filter kv_get]. destruct (f (k0, v0)) eqn:Ef; cbn [kv_get].
+  - destruct (keqb k k0) eqn:E; [apply keqb_eq in E; subst; rewrite Ef; reflexivity | apply IH; exact Ht].
+  - destruct (keqb k k0) eqn:E; [|apply IH; exact Ht]. apply keqb_eq in E. subst. rewrite Ef.
+    rewrite IH by exact Ht. rewrite get_not_in; [reflexivity | exact Hf].
+Qed.
+
+Lemma gen_purge : purge_waits_for_persist = true /\ purge_cancels_pending_adds = true /\ purge_drops_pending_updates = true /\ close_persists = true.
+Proof. repeat split; reflexivity. Qed.
+
+Lemma get_purge_del : forall (add del : kv msg) q k, ksorted add ->
+  kv_get (purge_del add del q) k =
+  match kv_get add k with
+  | Some m => if keqb k (msg_key q (m_id m)) then Some m else kv_get del k
+  | None => kv_get del k
+  end.
+Proof.
+  intros add del q k. unfold purge_del. rewrite (proj1 (proj2 gen_purge)). revert del.
+  induction add as [|[k0 m0] t IH]; intros del Hs; [reflexivity|]. apply ksorted_inv in Hs as [Ht Hf].
+  cbn [fold_left fst snd]. rewrite IH by exact Ht. cbn [kv_get]. destruct (keqb k k0) eqn:E.
+  - apply keqb_eq in E. subst. rewrite get_not_in by exact Hf.
+    destruct (keqb k0 (msg_key q (m_id m0))); [rewrite get_set, keqb_refl; reflexivity | reflexivity].
+  - destruct (kv_get t k) as [m|]; [destruct (keqb k (msg_key q (m_id m))); [reflexivity|]|];
+      (destruct (keqb k0 (msg_key q (m_id m0))); [rewrite get_set, E; reflexivity | reflexivity]).
+Qed.
+
+Lemma get_purge_upd : forall (upd : kv msg) q k, ksorted upd ->
+  kv_get (purge_upd upd q) k =
+  match kv_get upd k with Some m => if keqb k (msg_key q (m_id m)) then None else Some m | None => None end.
+Proof.
+  intros upd q k Hs. unfold purge_upd. rewrite (proj1 (proj2 (proj2 gen_purge))). rewrite get_filter_kv by exact Hs.
+  destruct (kv_get upd k) as [m|]; [|reflexivity]. cbn [fst snd]. destruct (keqb k (msg_key q (m_id m))); reflexivity.
+Qed.
+
+Lemma ksorted_purge_del : forall (add del : kv msg) q, ksorted del -> ksorted (purge_del add del q).
+Proof.
+  intros add del q. unfold purge_del. destruct purge_cancels_pending_adds; [|auto]. revert del.
+  induction add as [|[k0 m0] t IH]; intros del H; [exact H|]. cbn [fold_left fst snd]. apply IH.
+  destruct (keqb k0 (msg_key q (m_id m0))); [apply ksorted_set; exact H | exact H].
+Qed.
+
+Lemma ksorted_purge_upd : forall (upd : kv msg) q, ksorted upd -> ksorted (purge_upd upd q).
+Proof. intros upd q H. unfold purge_upd. destruct purge_drops_pending_updates; [apply ksorted_filter; exact H | exact H]. Qed.
+
+(* a purge that is not blocked *)
+Lemma ms_purge_eq : forall st q, ms_fly st = None ->
+  ms_purge st q = {| ms_engine := ms_engine st; ms_persistent := ms_persistent st; ms_confirm := ms_confirm st;
+                     ms_db := eng_del_prefix (ms_engine st) (ms_db st) (msg_prefix_del q);
+                     ms_add := ms_add st; ms_upd := purge_upd (ms_upd st) q; ms_del := purge_del (ms_add st) (ms_del st) q;
+                     ms_fly := None; ms_counts := ms_counts st |}.
+Proof. intros st q H. unfold ms_purge, purge_blocked. rewrite H, andb_false_r. reflexivity. Qed.
+
+Lemma ms_purge_blocked : forall st q f, ms_fly st = Some f -> ms_purge st q = st.
+Proof. intros st q f H. unfold ms_purge, purge_blocked. rewrite H, (proj1 gen_purge). reflexivity. Qed.
+
 (* ------------------------------------------------------------ well-formedness: every map stays key-sorted *)
 Definition fly_wf (f : option inflight) : Prop :=
   match f with Some f => ksorted (if_add f) /\ ksorted (if_upd f) /\ ksorted (if_del f) | None => True end.
@@ -158,6 +217,35 @@ Proof. intros. unfold seq_steps. destruct (f st) as [s1 e1]. cbn. destruct (g s1
 Lemma seq_steps_snd : forall f g st, snd (seq_steps f g st) = snd (f st) ++ snd (g (fst (f st))).
 Proof. intros. unfold seq_steps. destruct (f st) as [s1 e1]. cbn. destruct (g s1). reflexivity. Qed.
 
+Definition ms_tick (st : mstore) : mstore * list mevent := seq_steps ms_swap (seq_steps ms_batch ms_confirm_step) st.
+
+Lemma step_tick : forall st, ms_step st MPersistTick = ms_tick st.
+Proof. reflexivity. Qed.
+
+(* a graceful stop is a tick followed by a kill *)
+Lemma step_close : forall st, ms_step st MClose = (ms_kill (fst (ms_tick st)), snd (ms_tick st)).
+Proof. intro st. cbn [ms_step]. rewrite (proj2 (proj2 (proj2 gen_purge))). unfold ms_tick. destruct (seq_steps ms_swap (seq_steps ms_batch ms_confirm_step) st). reflexivity. Qed.
+
+Ltac fold_close st :=
+  match goal with |- context [if close_persists then ?a else ?b] =>
+    change (if close_persists then a else b) with (ms_step st MClose); rewrite (step_close st) end.
+
+Lemma wf_tick : forall st, ms_wf st -> ms_wf (fst (ms_tick st)).
+Proof. intros st H. unfold ms_tick. rewrite !seq_steps_fst. apply wf_confirm, wf_batch, wf_swap. exact H. Qed.
+
+Lemma fly_purge : forall st q, ms_fly (ms_purge st q) = ms_fly st.
+Proof. intros st q. unfold ms_purge. destruct (purge_blocked st); reflexivity. Qed.
+
+Lemma wf_purge : forall st q, ms_wf st -> ms_wf (ms_purge st q).
+Proof.
+  intros st q Hwf. pose proof Hwf as (Hd & Ha & Hu & Hdl & Hf). destruct (ms_fly st) as [f|] eqn:E.
+  - rewrite (ms_purge_blocked st q f E). exact Hwf.
+  - rewrite (ms_purge_eq st q E). unfold ms_wf. cbn. repeat split; try assumption.
+    + apply eng_del_prefix_sorted. exact Hd.
+    + apply ksorted_purge_upd. exact Hu.
+    + apply ksorted_purge_del. exact Hdl.
+Qed.
+
 Lemma wf_step : forall st l, ms_wf st -> ms_wf (fst (ms_step st l)).
 Proof.
   intros st l Hwf. pose proof Hwf as (Hd & Ha & Hu & Hdl & Hf).
@@ -165,7 +253,7 @@ Proof.
   - cbn. repeat split; try assumption. apply ksorted_set. exact Ha.
   - cbn. repeat split; try assumption. apply ksorted_set. exact Hu.
   - cbn. repeat split; try assumption. apply ksorted_set. exact Hdl.
-  - cbn. repeat split; try assumption. apply eng_del_prefix_sorted. exact Hd.
+  - apply wf_purge. exact Hwf.
   - destruct (ms_iter_from st q id limit). exact Hwf.
   - destruct (ms_iter st q limit). exact Hwf.
   - destruct (ms_recover st q limit). exact Hwf.
@@ -173,6 +261,7 @@ Proof.
   - apply wf_batch. exact Hwf.
   - apply wf_confirm. exact Hwf.
   - rewrite !seq_steps_fst. apply wf_confirm, wf_batch, wf_swap. exact Hwf.
+  - fold_close st. cbn [fst]. apply wf_kill, wf_tick. exact Hwf.
   - apply wf_kill. exact Hwf.
 Qed.
 
@@ -284,6 +373,14 @@ Proof.
   unfold ms_kill, fly_written_in. cbn. rewrite Hp. repeat split; try assumption; try reflexivity.
 Qed.
 
+Lemma dur_tick : forall k st b, dur_inv k st b -> dur_inv k (fst (ms_tick st)) (b || relay_in k (snd (ms_tick st))).
+Proof.
+  intros k st b Hinv. unfold ms_tick. rewrite !seq_steps_fst, !seq_steps_snd, !relay_in_app.
+  destruct (dur_swap k st b Hinv) as [H1 H2]. rewrite H2. cbn [orb].
+  destruct (dur_batch k _ b H1) as [H3 H4]. rewrite H4. cbn [orb].
+  apply dur_confirm. exact H3.
+Qed.
+
 Lemma dur_step : forall k st b l, dur_inv k st b -> label_safe k l = true ->
   dur_inv k (fst (ms_step st l)) (b || relay_in k (snd (ms_step st l))).
 Proof.
@@ -294,14 +391,20 @@ Proof.
   - split; [apply (wf_step st (MUpdate m q)); exact Hwf|]. unfold fly_written_in in *. cbn. repeat split; assumption.
   - (* MDel *) split; [apply (wf_step st (MDel m q)); exact Hwf|]. unfold fly_written_in in *. cbn. repeat split; try assumption.
     unfold is_del_of in Hl1. apply keqb_neq in Hl1. rewrite mem_set_other by (intro X; apply Hl1; symmetry; exact X). exact Hd.
-  - (* MPurge *) split; [apply (wf_step st (MPurge q)); exact Hwf|]. unfold covers in Hl2.
-    unfold ms_purge. remember (eng_del_prefix (ms_engine st) (ms_db st) (msg_prefix_del q)) as db' eqn:Edb.
-    assert (Hm : kv_mem db' k = kv_mem (ms_db st) k).
-    { subst db'. rewrite He. unfold eng_del_prefix. rewrite (proj1 (proj2 gen_badger_not_stub)).
-      unfold kv_mem. rewrite get_del_prefix, Hl2. reflexivity. }
-    unfold fly_written_in in *. cbn. repeat split; try assumption.
-    + intro Hbt. rewrite Hm. apply Hb. exact Hbt.
-    + destruct (ms_fly st); [|exact I]. intros H1 H2. rewrite Hm. apply Hfw; assumption.
+  - (* MPurge: not covering k *) unfold covers in Hl2. destruct (ms_fly st) as [f|] eqn:E.
+    + rewrite (ms_purge_blocked st q f E). exact Hinv.
+    + rewrite (ms_purge_eq st q E). split; [rewrite <- (ms_purge_eq st q E); apply wf_purge; exact Hwf|].
+      destruct Hwf as (Hsd & Hsa & Hsu & Hsdl & Hsf).
+      assert (Hm : kv_mem (eng_del_prefix (ms_engine st) (ms_db st) (msg_prefix_del q)) k = kv_mem (ms_db st) k).
+      { rewrite He. unfold eng_del_prefix. rewrite (proj1 (proj2 gen_badger_not_stub)).
+        unfold kv_mem. rewrite get_del_prefix, Hl2. reflexivity. }
+      assert (Hdel : kv_mem (purge_del (ms_add st) (ms_del st) q) k = false).
+      { unfold kv_mem in *. rewrite get_purge_del by exact Hsa. destruct (kv_get (ms_add st) k) as [m|]; [|exact Hd].
+        destruct (keqb k (msg_key q (m_id m))) eqn:Ek; [|exact Hd]. apply keqb_eq in Ek. rewrite Ek, msg_key_under_own_prefix in Hl2. discriminate. }
+      remember (eng_del_prefix (ms_engine st) (ms_db st) (msg_prefix_del q)) as db' eqn:Edb in *.
+      remember (purge_del (ms_add st) (ms_del st) q) as d' eqn:Ed' in *.
+      remember (purge_upd (ms_upd st) q) as u' eqn:Eu' in *.
+      unfold fly_written_in. cbn. repeat split; try assumption. intro Hbt. rewrite Hm. apply Hb. exact Hbt.
   - destruct (ms_iter_from st q id limit). cbn. rewrite orb_false_r. exact Hinv.
   - cbn. exact Hinv.
   - destruct (ms_iter st q limit). cbn. rewrite orb_false_r. exact Hinv.
@@ -309,12 +412,10 @@ Proof.
   - destruct (dur_swap k st b Hinv) as [H1 H2]. rewrite H2, orb_false_r. exact H1.
   - destruct (dur_batch k st b Hinv) as [H1 H2]. rewrite H2, orb_false_r. exact H1.
   - apply dur_confirm. exact Hinv.
-  - (* tick *) rewrite !seq_steps_fst, !seq_steps_snd, !relay_in_app.
-    destruct (dur_swap k st b Hinv) as [H1 H2]. rewrite H2. cbn [orb].
-    destruct (dur_batch k _ b H1) as [H3 H4]. rewrite H4. cbn [orb].
-    apply dur_confirm. exact H3.
+  - (* tick *) apply dur_tick. exact Hinv.
   - (* MExtConfirm: only the counters change *)
     destruct Hwf as (W1 & W2 & W3 & W4 & W5). unfold dur_inv, ms_wf, fly_written_in in *. cbn. repeat split; assumption.
+  - (* MClose *) fold_close st. cbn [fst snd]. apply dur_kill. apply dur_tick. exact Hinv.
   - apply dur_kill. exact Hinv.
 Qed.
 
@@ -484,6 +585,14 @@ Proof.
   - cbn [fst snd]. rewrite E. split; [reflexivity | exact I].
 Qed.
 
+Lemma ne_tick : forall k st seen, ne_inv k st seen ->
+  ne_ok k seen (snd (ms_tick st)) = true /\ ne_inv k (fst (ms_tick st)) (seen_after k seen (snd (ms_tick st))).
+Proof.
+  intros k st seen H. unfold ms_tick. rewrite !seq_steps_fst, !seq_steps_snd. destruct (ne_swap k st seen H) as [H1 H2].
+  destruct (ne_batch k _ _ H2) as [H3 H4]. destruct (ne_confirm k _ _ H4) as [H5 H6].
+  rewrite !ne_ok_app, !seen_after_app. rewrite H1, H3, H5. split; [reflexivity | exact H6].
+Qed.
+
 Lemma ne_step : forall k st seen l, ne_inv k st seen ->
   ne_ok k seen (snd (ms_step st l)) = true /\ ne_inv k (fst (ms_step st l)) (seen_after k seen (snd (ms_step st l))).
 Proof.
@@ -492,15 +601,15 @@ Proof.
             ne_inv k st' (seen_after k seen evs)).
   { intros st' Ef evs Hev. unfold seen_after. rewrite Hev, orb_false_r. unfold ne_inv in *. rewrite Ef. exact H. }
   destruct l; cbn [ms_step fst snd]; try (split; [reflexivity | apply Hsame; reflexivity]).
+  - split; [reflexivity | apply Hsame; [apply fly_purge | reflexivity]].
   - destruct (ms_iter_from st q id limit). cbn [fst snd]. split; [reflexivity | apply Hsame; reflexivity].
   - destruct (ms_iter st q limit). cbn [fst snd]. split; [reflexivity | apply Hsame; reflexivity].
   - destruct (ms_recover st q limit). cbn [fst snd]. split; [reflexivity | apply Hsame; reflexivity].
   - apply ne_swap. exact H.
   - apply ne_batch. exact H.
   - apply ne_confirm. exact H.
-  - rewrite !seq_steps_fst, !seq_steps_snd. destruct (ne_swap k st seen H) as [H1 H2].
-    destruct (ne_batch k _ _ H2) as [H3 H4]. destruct (ne_confirm k _ _ H4) as [H5 H6].
-    rewrite !ne_ok_app, !seen_after_app. rewrite H1, H3, H5. split; [reflexivity | exact H6].
+  - apply ne_tick. exact H.
+  - fold_close st. cbn [fst snd]. destruct (ne_tick k st seen H) as [H1 _]. split; [exact H1|]. unfold ne_inv. cbn. exact I.
   - split; [reflexivity|]. unfold ne_inv. cbn. exact I.
 Qed.
 
@@ -537,12 +646,22 @@ Proof.
   intros m k v x H. unfold kv_mem in *. rewrite get_set in H. destruct (keqb x k) eqn:E; [left; apply keqb_eq; exact E | right; exact H].
 Qed.
 
+Lemma mem_purge_del : forall (add del : kv msg) q k, kv_mem (purge_del add del q) k = true ->
+  kv_mem del k = true \/ exists id, k = msg_key q id.
+Proof.
+  intros add del q k. unfold purge_del. destruct purge_cancels_pending_adds; [|auto]. revert del.
+  induction add as [|[k0 m0] t IH]; intros del H; [left; exact H|]. cbn [fold_left fst snd] in H.
+  apply IH in H as [H|H]; [|right; exact H]. destruct (keqb k0 (msg_key q (m_id m0))) eqn:E; [|left; exact H].
+  apply mem_set_cases in H as [->|H]; [right; exists (m_id m0); apply keqb_eq; exact E | left; exact H].
+Qed.
+
 Lemma lab_step : forall (A D : key -> Prop) st l,
   (forall m q, l = MAdd m q -> A (msg_key q (m_id m))) -> (forall m q, l = MDel m q -> D (msg_key q (m_id m))) ->
+  (forall q id, l = MPurge q -> D (msg_key q id)) ->
   lab_inv A D st ->
   lab_inv A D (fst (ms_step st l)) /\ (forall k, existsb (cancelled_ev k) (snd (ms_step st l)) = true -> A k /\ D k).
 Proof.
-  intros A D st l HA HD [Ia Id].
+  intros A D st l HA HD HP [Ia Id].
   assert (Hnone : forall st', ms_add st' = ms_add st -> ms_del st' = ms_del st -> lab_inv A D st').
   { intros st' E1 E2. unfold lab_inv. rewrite E1, E2. split; assumption. }
   assert (Hempty : forall st', ms_add st' = [] -> ms_del st' = [] -> lab_inv A D st').
@@ -569,43 +688,58 @@ Proof.
     clear - X N. induction (snd (relays_of (ms_confirm s) (ms_counts s) f)) as [|e t IH]; [discriminate|].
     cbn [existsb] in *. unfold marks at 1 in N. destruct (cancelled_ev k e); [rewrite orb_true_r in N; discriminate|].
     cbn [orb] in X. apply orb_false_iff in N as [_ N]. apply IH; assumption. }
+  assert (Htick : lab_inv A D (fst (ms_tick st)) /\ (forall k, existsb (cancelled_ev k) (snd (ms_tick st)) = true -> A k /\ D k)).
+  { unfold ms_tick. rewrite !seq_steps_fst, !seq_steps_snd. destruct Hswap as [S1 S2]. destruct (Hbatch _ S1) as [B1 B2]. destruct (Hconf _ B1) as [C1 C2].
+    split; [exact C1|]. intros k X. rewrite !existsb_app in X. apply orb_true_iff in X as [X|X]; [apply S2; exact X|].
+    apply orb_true_iff in X as [X|X]; [apply B2 | apply C2]; exact X. }
   destruct l; cbn [ms_step fst snd]; try (split; [apply Hnone; reflexivity | intros k X; discriminate]).
   - split; [|intros k X; discriminate]. split; cbn; [|exact Id].
     intros k X. apply mem_set_cases in X as [->|X]; [apply (HA m q); reflexivity | apply Ia; exact X].
   - split; [|intros k X; discriminate]. split; cbn; [exact Ia|].
     intros k X. apply mem_set_cases in X as [->|X]; [apply (HD m q); reflexivity | apply Id; exact X].
+  - (* MPurge *) split; [|intros k X; discriminate]. unfold ms_purge. destruct (purge_blocked st); [split; assumption|].
+    split; cbn [ms_add ms_del]; [exact Ia|]. intros k X. apply mem_purge_del in X as [X|[id X]]; [apply Id; exact X | subst k; apply (HP q id); reflexivity].
   - destruct (ms_iter_from st q id limit). cbn [fst snd]. split; [split; assumption | intros k X; discriminate].
   - destruct (ms_iter st q limit). cbn [fst snd]. split; [split; assumption | intros k X; discriminate].
   - destruct (ms_recover st q limit). cbn [fst snd]. split; [split; assumption | intros k X; discriminate].
   - exact Hswap.
   - apply Hbatch. split; assumption.
   - apply Hconf. split; assumption.
-  - rewrite !seq_steps_fst, !seq_steps_snd. destruct Hswap as [S1 S2]. destruct (Hbatch _ S1) as [B1 B2]. destruct (Hconf _ B1) as [C1 C2].
-    split; [exact C1|]. intros k X. rewrite !existsb_app in X. apply orb_true_iff in X as [X|X]; [apply S2; exact X|].
-    apply orb_true_iff in X as [X|X]; [apply B2 | apply C2]; exact X.
+  - exact Htick.
+  - (* MClose *) fold_close st. cbn [fst snd]. destruct Htick as [_ T2]. split; [apply Hempty; reflexivity | exact T2].
   - split; [apply Hempty; reflexivity | intros k X; discriminate].
 Qed.
 
 Lemma lab_run : forall (A D : key -> Prop) ls st,
   (forall m q, In (MAdd m q) ls -> A (msg_key q (m_id m))) -> (forall m q, In (MDel m q) ls -> D (msg_key q (m_id m))) ->
+  (forall q id, In (MPurge q) ls -> D (msg_key q id)) ->
   lab_inv A D st -> forall k, existsb (cancelled_ev k) (snd (ms_run st ls)) = true -> A k /\ D k.
 Proof.
-  induction ls as [|l r IH]; intros st HA HD Hi k X; [discriminate|]. rewrite run_cons in X. cbn [snd] in X.
+  induction ls as [|l r IH]; intros st HA HD HP Hi k X; [discriminate|]. rewrite run_cons in X. cbn [snd] in X.
   destruct (lab_step A D st l) as [H1 H2]; try assumption.
   - intros m q E. apply HA. left. exact E.
   - intros m q E. apply HD. left. exact E.
+  - intros q id E. apply HP. left. exact E.
   - rewrite existsb_app in X. apply orb_true_iff in X as [X|X]; [apply H2; exact X|].
-    eapply IH; try eassumption; intros m q Hin; [apply HA | apply HD]; right; exact Hin.
+    apply (IH (fst (ms_step st l))); try assumption.
+    + intros m q Hin. apply HA. right. exact Hin.
+    + intros m q Hin. apply HD. right. exact Hin.
+    + intros q id Hin. apply HP. right. exact Hin.
 Qed.
+
+(* the add of k is cancelled only if k was Added and then either Del-requested or its queue purged *)
+Definition del_or_purge (k : key) (l : mlabel) : bool := is_del_of k l || covers k l.
 
 Theorem cancelled_means_settled : forall e p c ls k,
   existsb (cancelled_ev k) (snd (ms_run (ms_init e p c) ls)) = true ->
-  existsb (is_add_of k) ls = true /\ existsb (is_del_of k) ls = true.
+  existsb (is_add_of k) ls = true /\ existsb (del_or_purge k) ls = true.
 Proof.
   intros e p c ls k X.
-  apply (lab_run (fun x => existsb (is_add_of x) ls = true) (fun x => existsb (is_del_of x) ls = true) ls (ms_init e p c)); try exact X.
+  apply (lab_run (fun x => existsb (is_add_of x) ls = true) (fun x => existsb (del_or_purge x) ls = true) ls (ms_init e p c)); try exact X.
   - intros m q Hin. apply existsb_exists. exists (MAdd m q). split; [exact Hin | cbn; apply keqb_refl].
-  - intros m q Hin. apply existsb_exists. exists (MDel m q). split; [exact Hin | cbn; apply keqb_refl].
+  - intros m q Hin. apply existsb_exists. exists (MDel m q). split; [exact Hin|]. unfold del_or_purge, is_del_of. rewrite keqb_refl. reflexivity.
+  - intros q id Hin. apply existsb_exists. exists (MPurge q). split; [exact Hin|]. unfold del_or_purge, covers, is_del_of.
+    rewrite msg_key_under_own_prefix. reflexivity.
   - split; intros x Y; discriminate.
 Qed.
 
@@ -658,6 +792,24 @@ Proof.
   - destruct bunt_stub_delete_by_prefix; [reflexivity | exact X].
 Qed.
 
+Lemma under_purge_del_other : forall q q' (add del : kv msg), q <> q' -> nof21_pair q' q = true ->
+  under q' (purge_del add del q) = under q' del.
+Proof.
+  intros q q' add del Hne Hn. unfold purge_del. destruct purge_cancels_pending_adds; [|reflexivity]. revert del.
+  induction add as [|[k0 m0] t IH]; intro del; [reflexivity|]. cbn [fold_left fst snd]. rewrite IH.
+  destruct (keqb k0 (msg_key q (m_id m0))) eqn:E; [|reflexivity]. apply keqb_eq in E. subst k0. apply under_set_other; assumption.
+Qed.
+
+Lemma under_purge_upd_other : forall q q' (upd : kv msg), q <> q' -> nof21_pair q' q = true ->
+  under q' (purge_upd upd q) = under q' upd.
+Proof.
+  intros q q' upd Hne Hn. unfold purge_upd. destruct purge_drops_pending_updates; [|reflexivity].
+  unfold under, kv_filter_prefix. rewrite filter_filter. apply filter_ext. intros [k m]. cbn [fst snd].
+  destruct (is_prefix (msg_prefix_del q') k) eqn:P; [|reflexivity]. cbn [andb].
+  destruct (keqb k (msg_key q (m_id m))) eqn:E; [|reflexivity]. apply keqb_eq in E. subst k.
+  rewrite (not_under_other q q' (m_id m) Hne Hn) in P. discriminate.
+Qed.
+
 (* an API call addressed to q leaves everything the store holds under q' untouched *)
 Theorem store_isolation_step : forall st l q q', addressed l = Some q -> q <> q' ->
   nof21_pair q q' = true -> nof21_pair q' q = true ->
@@ -667,7 +819,8 @@ Proof.
   - unfold messages_of, ms_add_msg, with_pending. cbn [ms_db ms_add ms_upd ms_del ms_fly]. rewrite under_set_other by assumption. reflexivity.
   - unfold messages_of, ms_update_msg, with_pending. cbn [ms_db ms_add ms_upd ms_del ms_fly]. rewrite under_set_other by assumption. reflexivity.
   - unfold messages_of, ms_del_msg, with_pending. cbn [ms_db ms_add ms_upd ms_del ms_fly]. rewrite under_set_other by assumption. reflexivity.
-  - unfold messages_of, ms_purge, set_db. cbn [ms_db ms_add ms_upd ms_del ms_fly]. rewrite under_purge_other by assumption. reflexivity.
+  - unfold ms_purge. destruct (purge_blocked st); [reflexivity|]. unfold messages_of. cbn [ms_db ms_add ms_upd ms_del ms_fly].
+    rewrite under_purge_other, under_purge_del_other, under_purge_upd_other by assumption. reflexivity.
   - destruct (ms_iter_from st q id limit). reflexivity.
   - reflexivity.
   - destruct (ms_iter st q limit). reflexivity.
@@ -791,10 +944,11 @@ Proof.
     inversion Hin; subst. apply Hl. left. reflexivity.
   - unfold src_inv. cbn. repeat split; try assumption. intros k v Hin. apply in_set in Hin as [Hin|Hin]; [|apply H3; exact Hin].
     inversion Hin; subst. apply Hl. right. reflexivity.
-  - unfold src_inv. cbn [ms_purge set_db ms_db ms_add ms_upd ms_fly]. repeat split; try assumption.
-    intros k v Hin. apply H1. unfold eng_del_prefix in Hin.
-    destruct (ms_engine st); [destruct badger_stub_delete_by_prefix | destruct bunt_stub_delete_by_prefix]; try exact Hin;
-    unfold kv_del_prefix in Hin; apply filter_In in Hin as [Hin _]; exact Hin.
+  - unfold ms_purge. destruct (purge_blocked st); [exact Hinv|]. unfold src_inv. cbn [ms_db ms_add ms_upd ms_fly]. repeat split; try assumption.
+    + intros k v Hin. apply H1. unfold eng_del_prefix in Hin.
+      destruct (ms_engine st); [destruct badger_stub_delete_by_prefix | destruct bunt_stub_delete_by_prefix]; try exact Hin;
+      unfold kv_del_prefix in Hin; apply filter_In in Hin as [Hin _]; exact Hin.
+    + intros k v Hin. apply H3. unfold purge_upd in Hin. destruct purge_drops_pending_updates; [apply filter_In in Hin as [Hin _]; exact Hin | exact Hin].
   - destruct (ms_iter_from st q id limit). exact Hinv.
   - destruct (ms_iter st q limit). exact Hinv.
   - destruct (ms_recover st q limit). exact Hinv.
@@ -802,6 +956,7 @@ Proof.
   - apply src_batch. exact Hinv.
   - apply src_confirm. exact Hinv.
   - rewrite !seq_steps_fst. apply src_confirm, src_batch, src_swap. exact Hinv.
+  - fold_close st. cbn [fst]. apply src_kill. unfold ms_tick. rewrite !seq_steps_fst. apply src_confirm, src_batch, src_swap. exact Hinv.
   - apply src_kill. exact Hinv.
 Qed.
 
@@ -922,11 +1077,19 @@ Lemma order_refuted :
   map m_id (fst (ms_recover (fst (ms_run (ms_init Badger true true) ls)) qa 0)) = [10; 9] /\ same_dec_len [9; 10] = false.
 Proof. vm_compute. split; reflexivity. Qed.
 
-(* F41: a purge inside the flush window does not remove the pending message: it is written afterwards *)
-Lemma f41_purge_in_window :
+(* F41 repaired (/repo 390cc62): a purge inside the flush window cancels the pending add - nothing comes back after the
+   restart, and the publisher is still confirmed (through `settled`) *)
+Lemma purge_in_window_repaired :
   let ls := [MAdd (mk 100 1) qa; MPurge qa; MPersistTick; MKill] in
-  map m_id (fst (ms_recover (fst (ms_run (ms_init Badger true true) ls)) qa 0)) = [100].
-Proof. vm_compute. reflexivity. Qed.
+  let r := ms_run (ms_init Badger true true) ls in
+  fst (ms_recover (fst r) qa 0) = [] /\ ms_db (fst r) = [] /\ relay_in (msg_key qa 100) (snd r) = true.
+Proof. vm_compute. repeat split; reflexivity. Qed.
+
+(* a graceful stop writes out what is pending; a kill loses it *)
+Lemma close_persists_kill_loses :
+  map m_id (fst (ms_recover (fst (ms_run (ms_init Badger true true) [MAdd (mk 100 1) qa; MClose])) qa 0)) = [100] /\
+  fst (ms_recover (fst (ms_run (ms_init Badger true true) [MAdd (mk 100 1) qa; MKill])) qa 0) = [].
+Proof. vm_compute. split; reflexivity. Qed.
 
 (* non-vacuity: a run satisfying every hypothesis of store_durable, with kills, other queues and a split persist *)
 Lemma durable_example :
@@ -937,9 +1100,6 @@ Lemma durable_example :
   map m_id (fst (ms_recover (ms_kill (fst (ms_run (ms_init Badger true true) ls))) qa 0)) = [100].
 Proof. vm_compute. repeat split; reflexivity. Qed.
 
-Lemma f41_exists : exists ls q, existsb (is_purge_of q) ls = true /\
-  map m_id (fst (ms_recover (fst (ms_run (ms_init Badger true true) ls)) q 0)) = [100].
-Proof. exists [MAdd (mk 100 1) qa; MPurge qa; MPersistTick; MKill], qa. vm_compute. split; reflexivity. Qed.
 
 (* ------------------------------------------------------------ C04: recover lists survivors in id order *)
 Definition dv (acc : N) (l : bytes) : N := fold_left (fun a c => 10 * a + (c - 48)) l acc.
@@ -1056,6 +1216,7 @@ Proof. intro st. rewrite ms_confirm_eq. destruct (ms_fly st) as [f|]; [|reflexiv
 Lemma engine_step : forall st l, ms_engine (fst (ms_step st l)) = ms_engine st.
 Proof.
   intros st l. destruct l; cbn [ms_step fst]; try reflexivity.
+  - unfold ms_purge. destruct (purge_blocked st); reflexivity.
   - destruct (ms_iter_from st q id limit); reflexivity.
   - destruct (ms_iter st q limit); reflexivity.
   - destruct (ms_recover st q limit); reflexivity.
@@ -1063,6 +1224,7 @@ Proof.
   - apply engine_batch.
   - apply engine_confirm.
   - rewrite !seq_steps_fst. rewrite engine_confirm, engine_batch, engine_swap. reflexivity.
+  - fold_close st. cbn [fst]. unfold ms_tick. rewrite !seq_steps_fst. cbn [ms_kill ms_engine]. rewrite engine_confirm, engine_batch, engine_swap. reflexivity.
 Qed.
 Lemma engine_run : forall ls st, ms_engine (fst (ms_run st ls)) = ms_engine st.
 Proof. induction ls as [|l r IH]; intro st; [reflexivity|]. rewrite run_cons. cbn [fst]. rewrite IH. apply engine_step. Qed.
@@ -1147,8 +1309,15 @@ Proof.
   - constructor; try assumption. cbn. apply agree_set_left; [assumption | apply msg_key_under_own_prefix].
   - constructor; try assumption. cbn. apply agree_set_left; [assumption | apply msg_key_under_own_prefix].
   - constructor; try assumption. cbn. apply agree_set_left; [assumption | apply msg_key_under_own_prefix].
-  - constructor; try assumption. unfold ms_purge, set_db. cbn [ms_db]. rewrite ag_e3. unfold eng_del_prefix.
-    rewrite (proj1 (proj2 gen_badger_not_stub)). intros x Hx. rewrite get_del_prefix. unfold off in Hx. rewrite Hx. apply ag_db0. exact Hx.
+  - (* MPurge q0: everything it touches lies under q0's scan prefix *)
+    destruct (ms_fly s1) as [f|] eqn:E; [rewrite (ms_purge_blocked s1 q0 f E) in *; constructor; try assumption; rewrite E; exact ag_fly0|].
+    rewrite (ms_purge_eq s1 q0 E) in *. destruct ag_wf3 as (Sd & Sa & Su & Sdl & Sf).
+    constructor; try assumption; cbn [ms_db ms_add ms_upd ms_del ms_fly ms_engine ms_persistent ms_confirm].
+    + rewrite ag_e3. unfold eng_del_prefix. rewrite (proj1 (proj2 gen_badger_not_stub)). intros x Hx. rewrite get_del_prefix. unfold off in Hx. rewrite Hx. apply ag_db0. exact Hx.
+    + intros x Hx. rewrite get_purge_upd by exact Su. rewrite <- (ag_upd0 x Hx). destruct (kv_get (ms_upd s1) x) as [m|]; [|reflexivity].
+      destruct (keqb x (msg_key q0 (m_id m))) eqn:Ek; [|reflexivity]. apply keqb_eq in Ek. unfold off in Hx. rewrite Ek, msg_key_under_own_prefix in Hx. discriminate.
+    + intros x Hx. rewrite get_purge_del by exact Sa. destruct (kv_get (ms_add s1) x) as [m|]; [|apply ag_del0; exact Hx].
+      destruct (keqb x (msg_key q0 (m_id m))) eqn:Ek; [|apply ag_del0; exact Hx]. apply keqb_eq in Ek. unfold off in Hx. rewrite Ek, msg_key_under_own_prefix in Hx. discriminate.
   - destruct (ms_iter_from s1 q0 id limit). constructor; assumption.
   - constructor; assumption.
   - destruct (ms_iter s1 q0 limit). constructor; assumption.
@@ -1203,8 +1372,16 @@ Proof.
   - destruct H. constructor; try assumption. cbn. apply agree_set_both. assumption.
   - destruct H. constructor; try assumption. cbn. apply agree_set_both. assumption.
   - destruct H. constructor; try assumption. cbn. apply agree_set_both. assumption.
-  - destruct H. constructor; try assumption. unfold ms_purge, set_db. cbn [ms_db]. rewrite ag_e3, ag_e4. unfold eng_del_prefix.
-    rewrite (proj1 (proj2 gen_badger_not_stub)). intros x Hx. rewrite !get_del_prefix. destruct (is_prefix (msg_prefix_del q0) x); [reflexivity | apply ag_db0; exact Hx].
+  - (* MPurge q0 on both sides: blocked on both or on neither *)
+    destruct H. destruct (ms_fly s1) as [f1|] eqn:E1, (ms_fly s2) as [f2|] eqn:E2; cbn in ag_fly0; try contradiction.
+    + rewrite (ms_purge_blocked s1 q0 f1 E1), (ms_purge_blocked s2 q0 f2 E2) in *. constructor; try assumption. rewrite E1, E2. exact ag_fly0.
+    + rewrite (ms_purge_eq s1 q0 E1), (ms_purge_eq s2 q0 E2) in *.
+      destruct ag_wf3 as (Sd1 & Sa1 & Su1 & Sdl1 & Sf1). destruct ag_wf4 as (Sd2 & Sa2 & Su2 & Sdl2 & Sf2).
+      constructor; try assumption; cbn [ms_db ms_add ms_upd ms_del ms_fly ms_engine ms_persistent ms_confirm].
+      * rewrite ag_e3, ag_e4. unfold eng_del_prefix. rewrite (proj1 (proj2 gen_badger_not_stub)). intros x Hx. rewrite !get_del_prefix.
+        destruct (is_prefix (msg_prefix_del q0) x); [reflexivity | apply ag_db0; exact Hx].
+      * intros x Hx. rewrite !get_purge_upd by assumption. rewrite (ag_upd0 x Hx). reflexivity.
+      * intros x Hx. rewrite !get_purge_del by assumption. rewrite (ag_add0 x Hx), (ag_del0 x Hx). reflexivity.
   - destruct (ms_iter_from s1 q0 id limit), (ms_iter_from s2 q0 id limit). exact H.
   - exact H.
   - destruct (ms_iter s1 q0 limit), (ms_iter s2 q0 limit). exact H.
@@ -1214,6 +1391,8 @@ Proof.
   - apply agree_confirm. exact H.
   - rewrite !seq_steps_fst. apply agree_confirm, agree_batch, agree_swap. exact H.
   - destruct H. constructor; assumption.
+  - (* MClose *) clear W1 W2. fold_close s1. fold_close s2. cbn [fst]. apply agree_kill. unfold ms_tick. rewrite !seq_steps_fst.
+    apply agree_confirm, agree_batch, agree_swap. exact H.
   - apply agree_kill. exact H.
 Qed.
 
@@ -1311,6 +1490,12 @@ Proof.
   split; [exact W|]. cbn. repeat split; assumption.
 Qed.
 
+Lemma clean_tick : forall k st, clean k st -> clean k (fst (ms_tick st)) /\ relay_in k (snd (ms_tick st)) = false.
+Proof.
+  intros k st Hc. unfold ms_tick. rewrite !seq_steps_fst, !seq_steps_snd, !relay_in_app. destruct (clean_swap k st Hc) as [H1 H2]. rewrite H2.
+  destruct (clean_batch k _ H1) as [H3 H4]. destruct (clean_confirm k _ H3) as [H5 H6]. rewrite H4, H6. split; [exact H5 | reflexivity].
+Qed.
+
 Lemma clean_step : forall k st l, clean k st -> untouched k l = true ->
   clean k (fst (ms_step st l)) /\ relay_in k (snd (ms_step st l)) = false.
 Proof.
@@ -1322,7 +1507,14 @@ Proof.
   - split; [apply (wf_step st (MUpdate m q)); exact Hwf|]. cbn. repeat split; assumption.
   - split; [apply (wf_step st (MDel m q)); exact Hwf|]. cbn. repeat split; try assumption.
     unfold is_del_of in Hdl. apply keqb_neq in Hdl. rewrite mem_set_other by (intro X; apply Hdl; symmetry; exact X). exact Hd.
-  - split; [apply (wf_step st (MPurge q)); exact Hwf|]. cbn. repeat split; assumption.
+  - (* MPurge: any purge; k is in no pending add, so no del of k appears *)
+    destruct (ms_fly st) as [f|] eqn:E; [rewrite (ms_purge_blocked st q f E); exact Hc|].
+    split; [apply wf_purge; exact Hwf|]. rewrite (ms_purge_eq st q E). destruct Hwf as (Sd & Sa & Su & Sdl & Sf).
+    assert (Hdel : kv_mem (purge_del (ms_add st) (ms_del st) q) k = false).
+    { unfold kv_mem in *. rewrite get_purge_del by exact Sa. destruct (kv_get (ms_add st) k); [discriminate | exact Hd]. }
+    remember (purge_del (ms_add st) (ms_del st) q) as d' eqn:Ed' in *. remember (purge_upd (ms_upd st) q) as u' eqn:Eu' in *.
+    remember (eng_del_prefix (ms_engine st) (ms_db st) (msg_prefix_del q)) as db' eqn:Edb in *.
+    cbn. repeat split; try assumption.
   - destruct (ms_iter_from st q id limit). cbn. split; [exact Hc | reflexivity].
   - exact Hc.
   - destruct (ms_iter st q limit). cbn. split; [exact Hc | reflexivity].
@@ -1330,9 +1522,10 @@ Proof.
   - apply clean_swap. exact Hc.
   - apply clean_batch. exact Hc.
   - apply clean_confirm. exact Hc.
-  - rewrite !seq_steps_fst, !seq_steps_snd, !relay_in_app. destruct (clean_swap k st Hc) as [H1 H2]. rewrite H2.
-    destruct (clean_batch k _ H1) as [H3 H4]. destruct (clean_confirm k _ H3) as [H5 H6]. rewrite H4, H6. split; [exact H5 | reflexivity].
+  - apply clean_tick. exact Hc.
   - destruct Hwf as (W1 & W2 & W3 & W4 & W5). unfold clean, ms_wf. cbn. repeat split; assumption.
+  - (* MClose *) fold_close st. cbn [fst snd]. destruct (clean_tick k st Hc) as [T1 T2]. split; [|exact T2].
+    destruct T1 as (W & E1 & P1 & _). split; [apply wf_kill; exact W|]. unfold ms_kill. cbn. rewrite P1. repeat split; try assumption; reflexivity.
   - split; [apply wf_kill; exact Hwf|]. unfold ms_kill. cbn. rewrite Hp. repeat split; try assumption; reflexivity.
 Qed.
 
@@ -1377,9 +1570,9 @@ Proof.
 Qed.
 
 
-(* for a key that no label Del-requests the refined clause is the plain one *)
+(* for a key that no label Del-requests and whose queue no label purges, the refined clause is the plain one *)
 Theorem store_not_early_undeleted : forall e p c ls evs1 k m evs2,
-  existsb (is_del_of k) ls = false ->
+  existsb (del_or_purge k) ls = false ->
   snd (ms_run (ms_init e p c) ls) = evs1 ++ EvRelay k m :: evs2 ->
   existsb (batch_sets k) evs1 = true.
 Proof.
@@ -1387,4 +1580,145 @@ Proof.
   assert (X : existsb (cancelled_ev k) (snd (ms_run (ms_init e p c) ls)) = true).
   { rewrite E, existsb_app, H. reflexivity. }
   apply cancelled_means_settled in X as [_ X]. congruence.
+Qed.
+
+(* ------------------------------------------------------------ PurgeQueue is effective (F41 repaired) *)
+(* after a purge of q that is not waiting for a running persist, a key of q stays out of the engine for as long as
+   nothing writes it again - whatever was pending for it at the time of the purge *)
+Definition gone_fly (k : key) (f : option inflight) : Prop :=
+  match f with Some f => kv_mem (if_add f) k = false /\ kv_mem (if_upd f) k = false | None => True end.
+Definition gone (k : key) (st : mstore) : Prop :=
+  ms_wf st /\ kv_mem (ms_db st) k = false /\ (kv_mem (ms_add st) k = true -> kv_mem (ms_del st) k = true) /\
+  kv_mem (ms_upd st) k = false /\ gone_fly k (ms_fly st).
+
+Lemma msg_key_queue_inj : forall q id q' id', msg_key q id = msg_key q' id' -> q = q'.
+Proof.
+  intros q id q' id' E. rewrite !msg_key_shape in E. apply app_inv_head in E.
+  apply app_sep_inj_last in E as [E _]; try apply fmt_id_dotfree. exact E.
+Qed.
+
+Lemma gone_kill : forall k st, gone k st -> gone k (ms_kill st).
+Proof.
+  intros k st (Hwf & Hd & Ha & Hu & Hf). split; [apply wf_kill; exact Hwf|]. unfold ms_kill. cbn.
+  repeat split; try reflexivity; try discriminate. destruct (ms_persistent st); [exact Hd | reflexivity].
+Qed.
+
+Lemma gone_swap : forall k st, gone k st -> gone k (fst (ms_swap st)).
+Proof.
+  intros k st (Hwf & Hd & Ha & Hu & Hf). split; [apply wf_swap; exact Hwf|]. unfold ms_swap. destruct (ms_fly st) as [f|] eqn:E; cbn.
+  - rewrite E. cbn in Hf. destruct Hf. unfold gone_fly. repeat split; assumption.
+  - unfold gone_fly. repeat split; try assumption; try reflexivity; try discriminate.
+    + unfold cancel_add. cbn. unfold kv_mem in *. rewrite (get_filter msg (fun x => negb (kv_mem (ms_del st) x))). unfold kv_mem.
+      destruct (kv_get (ms_add st) k) eqn:Ea; [|destruct (kv_get (ms_del st) k); reflexivity].
+      rewrite Ha by reflexivity. reflexivity.
+    + unfold cancel_upd. cbn. apply mem_filter_false with (P := fun x => negb (kv_mem (ms_del st) x)). exact Hu.
+Qed.
+
+Lemma gone_batch : forall k st, gone k st -> gone k (fst (ms_batch st)).
+Proof.
+  intros k st Hg. pose proof Hg as (Hwf & Hd & Ha & Hu & Hf). pose proof (wf_batch st Hwf) as W. rewrite ms_batch_eq in *.
+  destruct (ms_fly st) as [f|] eqn:E; [|exact Hg]. destruct (if_stage f) eqn:Es; [|exact Hg].
+  destruct (eng_batch (ms_engine st) (ms_db st) (batch_of f)) as [db'|] eqn:Eb; cbn [fst] in *; [|apply gone_kill; exact Hg].
+  assert (Hdb : db' = kv_batch (ms_db st) (batch_of f)).
+  { destruct (ms_engine st); cbn [eng_batch] in Eb; [inversion Eb; reflexivity | apply batch_strict_eq; exact Eb]. }
+  destruct Hwf as (Sd & Sa & Su & Sdl & Sf). try rewrite E in Sf. try rewrite E in Hf. cbn in Sf. destruct Sf as (Fa & Fu & Fd). cbn in Hf. destruct Hf as [Hfa Hfu].
+  split; [exact W|]. cbn. repeat split; try assumption.
+  subst db'. unfold kv_mem in *. rewrite get_persist_batch by assumption. unfold kv_mem.
+  destruct (kv_get (if_del f) k); [reflexivity|]. destruct (kv_get (if_upd f) k); [discriminate|].
+  destruct (kv_get (if_add f) k); [discriminate | exact Hd].
+Qed.
+
+Lemma gone_confirm : forall k st, gone k st -> gone k (fst (ms_confirm_step st)).
+Proof.
+  intros k st Hg. pose proof Hg as (Hwf & Hd & Ha & Hu & Hf). pose proof (wf_confirm st Hwf) as W. rewrite ms_confirm_eq in *.
+  destruct (ms_fly st) as [f|] eqn:E; [|exact Hg]. destruct (if_stage f); [exact Hg|]. cbn [fst] in *.
+  split; [exact W|]. cbn. repeat split; assumption.
+Qed.
+
+Lemma gone_tick : forall k st, gone k st -> gone k (fst (ms_tick st)).
+Proof. intros k st H. unfold ms_tick. rewrite !seq_steps_fst. apply gone_confirm, gone_batch, gone_swap. exact H. Qed.
+
+Lemma mem_purge_del_mono : forall (add del : kv msg) q k, ksorted add -> kv_mem del k = true -> kv_mem (purge_del add del q) k = true.
+Proof.
+  intros add del q k Hs H. unfold kv_mem in *. rewrite get_purge_del by exact Hs.
+  destruct (kv_get add k) as [m|]; [destruct (keqb k (msg_key q (m_id m))); [reflexivity | exact H] | exact H].
+Qed.
+
+Lemma gone_step : forall k st l, gone k st -> is_write_of k l = false -> gone k (fst (ms_step st l)).
+Proof.
+  intros k st l Hg Hw. pose proof Hg as (Hwf & Hd & Ha & Hu & Hf).
+  destruct l; cbn [ms_step fst]; try exact Hg.
+  - split; [apply (wf_step st (MAdd m q)); exact Hwf|]. cbn. repeat split; try assumption.
+    unfold is_write_of in Hw. apply keqb_neq in Hw. rewrite mem_set_other by (intro X; apply Hw; symmetry; exact X). exact Ha.
+  - split; [apply (wf_step st (MUpdate m q)); exact Hwf|]. cbn. repeat split; try assumption.
+    unfold is_write_of in Hw. apply keqb_neq in Hw. rewrite mem_set_other by (intro X; apply Hw; symmetry; exact X). exact Hu.
+  - split; [apply (wf_step st (MDel m q)); exact Hwf|]. cbn. repeat split; try assumption.
+    intro X. specialize (Ha X). destruct (keqb k (msg_key q (m_id m))) eqn:Ek.
+    + apply keqb_eq in Ek. subst k. unfold kv_mem. rewrite get_set, keqb_refl. reflexivity.
+    + apply keqb_neq in Ek. rewrite mem_set_other by exact Ek. exact Ha.
+  - destruct (ms_fly st) as [f|] eqn:E; [rewrite (ms_purge_blocked st q f E); exact Hg|].
+    split; [apply wf_purge; exact Hwf|]. rewrite (ms_purge_eq st q E). destruct Hwf as (Sd & Sa & Su & Sdl & Sf).
+    assert (H1 : kv_mem (eng_del_prefix (ms_engine st) (ms_db st) (msg_prefix_del q)) k = false).
+    { unfold eng_del_prefix. destruct (ms_engine st); [destruct badger_stub_delete_by_prefix | destruct bunt_stub_delete_by_prefix]; try exact Hd;
+        unfold kv_mem in *; rewrite get_del_prefix; destruct (is_prefix (msg_prefix_del q) k); [reflexivity | exact Hd | reflexivity | exact Hd]. }
+    assert (H2 : kv_mem (ms_add st) k = true -> kv_mem (purge_del (ms_add st) (ms_del st) q) k = true).
+    { intro X. apply mem_purge_del_mono; [exact Sa | apply Ha; exact X]. }
+    assert (H3 : kv_mem (purge_upd (ms_upd st) q) k = false).
+    { unfold kv_mem in *. rewrite get_purge_upd by exact Su. destruct (kv_get (ms_upd st) k); [discriminate | reflexivity]. }
+    remember (purge_del (ms_add st) (ms_del st) q) as d' eqn:Ed' in *. remember (purge_upd (ms_upd st) q) as u' eqn:Eu' in *.
+    remember (eng_del_prefix (ms_engine st) (ms_db st) (msg_prefix_del q)) as db' eqn:Edb in *.
+    cbn. repeat split; assumption.
+  - destruct (ms_iter_from st q id limit). exact Hg.
+  - destruct (ms_iter st q limit). exact Hg.
+  - destruct (ms_recover st q limit). exact Hg.
+  - apply gone_swap. exact Hg.
+  - apply gone_batch. exact Hg.
+  - apply gone_confirm. exact Hg.
+  - apply gone_tick. exact Hg.
+  - fold_close st. cbn [fst]. apply gone_kill, gone_tick. exact Hg.
+  - apply gone_kill. exact Hg.
+Qed.
+
+Lemma gone_run : forall k ls st, gone k st -> forallb (fun l => negb (is_write_of k l)) ls = true -> gone k (fst (ms_run st ls)).
+Proof.
+  induction ls as [|l r IH]; intros st Hg Hs; [exact Hg|]. cbn [forallb] in Hs. apply andb_true_iff in Hs as [Hl Hr].
+  rewrite run_cons. cbn [fst]. apply IH; [|exact Hr]. apply gone_step; [exact Hg | apply negb_true_iff; exact Hl].
+Qed.
+
+(* every pending entry is keyed by makeKey of its own id *)
+Definition own_key (k : key) (m : msg) : Prop := exists q0, k = msg_key q0 (m_id m).
+
+Theorem store_purge_effective : forall c ls0 ls1 q id,
+  ms_fly (fst (ms_run (ms_init Badger true c) ls0)) = None ->
+  forallb (fun l => negb (is_write_of (msg_key q id) l)) ls1 = true ->
+  kv_mem (ms_db (fst (ms_run (ms_init Badger true c) (ls0 ++ MPurge q :: ls1)))) (msg_key q id) = false /\
+  kv_mem (ms_db (ms_kill (fst (ms_run (ms_init Badger true c) (ls0 ++ MPurge q :: ls1))))) (msg_key q id) = false.
+Proof.
+  intros c ls0 ls1 q id Hfly Hs. set (k := msg_key q id) in *. rewrite run_app. cbn [fst].
+  remember (fst (ms_run (ms_init Badger true c) ls0)) as st.
+  assert (Hwf : ms_wf st) by (subst st; apply wf_run, wf_init).
+  assert (He : ms_engine st = Badger) by (subst st; rewrite engine_run; reflexivity).
+  assert (Hsrc : src_inv own_key st).
+  { subst st. apply src_run; [|apply src_init]. intros m q1 _. exists q1. reflexivity. }
+  rewrite run_cons. cbn [fst ms_step].
+  assert (Hg : gone k (ms_purge st q)).
+  { split; [apply wf_purge; exact Hwf|]. rewrite (ms_purge_eq st q Hfly). destruct Hwf as (Sd & Sa & Su & Sdl & Sf).
+    destruct Hsrc as (_ & Sadd & Supd & _).
+    assert (Hown : forall (mp : kv msg) m, all_src own_key mp -> kv_get mp k = Some m -> keqb k (msg_key q (m_id m)) = true).
+    { intros mp m Hall Hget. apply get_in in Hget. destruct (Hall _ _ Hget) as [q0 Eq]. apply keqb_eq.
+      unfold k in Eq. pose proof (msg_key_queue_inj _ _ _ _ Eq) as Q. subst q0. exact Eq. }
+    assert (H1 : kv_mem (eng_del_prefix (ms_engine st) (ms_db st) (msg_prefix_del q)) k = false).
+    { rewrite He. unfold eng_del_prefix. rewrite (proj1 (proj2 gen_badger_not_stub)). unfold kv_mem. rewrite get_del_prefix.
+      unfold k. rewrite msg_key_under_own_prefix. reflexivity. }
+    assert (H2 : kv_mem (ms_add st) k = true -> kv_mem (purge_del (ms_add st) (ms_del st) q) k = true).
+    { intro X. unfold kv_mem in *. rewrite get_purge_del by exact Sa. destruct (kv_get (ms_add st) k) as [m|] eqn:Ea; [|discriminate].
+      rewrite (Hown _ m Sadd Ea). reflexivity. }
+    assert (H3 : kv_mem (purge_upd (ms_upd st) q) k = false).
+    { unfold kv_mem. rewrite get_purge_upd by exact Su. destruct (kv_get (ms_upd st) k) as [m|] eqn:Eu; [|reflexivity].
+      rewrite (Hown _ m Supd Eu). reflexivity. }
+    remember (purge_del (ms_add st) (ms_del st) q) as d' eqn:Ed' in *. remember (purge_upd (ms_upd st) q) as u' eqn:Eu' in *.
+    remember (eng_del_prefix (ms_engine st) (ms_db st) (msg_prefix_del q)) as db' eqn:Edb in *.
+    cbn. repeat split; try assumption. }
+  pose proof (gone_run k ls1 _ Hg Hs) as Hend. split; [exact (proj1 (proj2 Hend))|].
+  exact (proj1 (proj2 (gone_kill _ _ Hend))).
 Qed.
